@@ -5,7 +5,7 @@ CONSTANTS
   Cap <- MCCap1
   Mode = "enforce"
   Lazy = TRUE
-  MaxOps = 3
+  MaxOps = 2
   MaxHeld = 1
   OpSet = {"debit", "retain", "finish"}
   Atomic = FALSE
